@@ -9,6 +9,21 @@
 #include <unistd.h>
 #include <vector>
 
+struct colvars_verif_access {
+  static bool has_remaining(cvm::memory_stream &s, size_t c) { return s.has_remaining(c); }
+};
+
+static int run_has_remaining(replay_vals const &v) {
+  size_t const dl = v.u("e_dl"), rp = v.u("e_rp"), c = v.u("e_add");
+  static unsigned char dummy[1];
+  cvm::memory_stream is(dl, dummy); is.seekg(rp);   // has_remaining only compares lengths, the buffer is not touched
+  bool const r = colvars_verif_access::has_remaining(is, c);
+  bool const ref = (rp <= dl) && (c <= dl - rp);
+  std::ostringstream in; in << "has_remaining(" << c << ") with data_length=" << dl << " read_pos=" << rp;
+  if (r != ref) REPLAY_FAIL(in.str() << " returned " << r << ", but " << (ref ? "" : "fewer than ") << c << " bytes are left");
+  REPLAY_PASS(in.str());
+}
+
 template <typename T> static int run(std::string const &task, replay_vals const &v) {
   size_t const bufsz = v.u("e_bufsz"), dl = v.u("e_dl"), rp = v.u("e_rp"), maxlen = v.u("e_max"), vlen = v.u("e_vlen");
   int const st = int(v.i("e_st"));
@@ -64,7 +79,7 @@ int main(int argc, char **argv) {
   size_t isz = v.u("e_isz", 8);
   pid_t pid = fork();
   if (pid == 0) {
-    int r = (isz == 8) ? run<unsigned long>(task, v) : (isz == 4) ? run<int>(task, v) : run<unsigned char>(task, v);
+    int r = (task == "has_remaining") ? run_has_remaining(v) : (isz == 8) ? run<unsigned long>(task, v) : (isz == 4) ? run<int>(task, v) : run<unsigned char>(task, v);
     std::cout.flush(); _exit(r);
   }
   int status = 0; waitpid(pid, &status, 0);
